@@ -29,18 +29,18 @@ func (c11) Cases(tier string) int {
 
 func (c11) Thresholds(tier string) map[string]int64 {
 	return map[string]int64{
-		"jump-self":                        100,
-		"jump-out-of-nested-body":          200,
-		"jump-by-expression":               200,
-		"jump-from-top-level":              200,
-		"jump-leaves-untracked-node":       200,
-		"jump-leaves-tracking-always-node": 200,
-		"path-with-count>=5":               20,
-		"count-observations":               20000,
-		"snapshot-comparisons":             10000,
-		"non-node-name-observed":           5000,
-		"restore-in-mid-run":               500,
-		"restore-between-tracked-and-untracked-node": 100,
+		"jump-self":                                    100,
+		"jump-out-of-nested-body":                      200,
+		"jump-by-expression":                           200,
+		"jump-from-top-level":                          200,
+		"jump-leaves-untracked-node":                   200,
+		"jump-leaves-tracking-always-node":             200,
+		"path-with-count>=5":                           20,
+		"count-observations":                           20000,
+		"snapshot-comparisons":                         10000,
+		"non-node-name-observed":                       5000,
+		"restore-in-mid-run":                           500,
+		"restore-between-tracked-and-untracked-node":   100,
 		"snapshot-compared-after-failed-jump-or-error": 40,
 	}
 }
